@@ -3,6 +3,7 @@ package main
 // C05 — execution is total and pure, and its errors are classified.
 
 import (
+	"context"
 	"encoding/json"
 	"fmt"
 	"math"
@@ -186,6 +187,10 @@ func c05Operands() []c05Operand {
 		ops = append(ops, c05Operand{"hostile(" + h[:min(len(h), 12)] + ")", "n:" + h, ""})
 	}
 	// strings at the edges of every parser behind a method (number, integer, boolean, datetime)
+	for _, h := range []string{"2023-02-30", "2015-13-01", "0000-00-00", "2015-08-32", "2015-02-29", "2016-02-29", "9999-12-31", "10000-01-01", "24:00:00", "12:60:00", "12:34:60", "23:59:59.9999999",
+		"2015-08-02T24:00:00", "2015-02-30T12:00:00+00", "12:34:56+15:00", "12:34:56-00:60", "2015-08-02 12:34", "+2015-08-02", "2015-8-2"} {
+		ops = append(ops, c05Operand{"hostile-datetime(" + h + ")", "s:" + h, ""})
+	}
 	for _, h := range []string{"", " ", "+", "-", ".", "e", "0x", "0x1F", "0b", "0o7", "1_0", "010", "+1", "-", "1e", "1e+", "inf", "-Infinity", "NaN", "nan", "t", "T", "tru", "yes", "on", "0", "1", "00", "-0",
 		"9223372036854775808", "1e400", "2015", "2015-08", "24:00:00", "12:34:56+", "12:34:56+24", "2015-08-02T", "\u0000", "\ufffd", strings.Repeat("9", 400)} {
 		ops = append(ops, c05Operand{"hostile-string(" + h[:min(len(h), 12)] + ")", "s:" + h, ""})
@@ -214,6 +219,11 @@ func c05UnaryPaths(a c05Operand) []string {
 		A + ".**", A + ".*", A + "[*]", A + "[0]", A + "[last]", A + ".a", A + ".datetime()", A + ".date()", A + ".time()", A + ".time_tz()", A + ".timestamp()", A + ".timestamp_tz()", A + ".time(3)"}
 	for _, m := range []string{"type", "size", "double", "number", "integer", "bigint", "boolean", "string", "abs", "floor", "ceiling", "keyvalue"} {
 		out = append(out, A+"."+m+"()")
+	}
+	// whatever a datetime method delivers is a usable item: the steps and operators after it
+	for _, m := range []string{"datetime", "date", "time", "time_tz", "timestamp", "timestamp_tz"} {
+		d := A + "." + m + "()"
+		out = append(out, d+".string()", d+".type()", d+" == "+d, d+" < "+A, "$c ? (@ == "+d+")", "exists("+d+" ? (@ > "+d+"))", d+".timestamp_tz().string()", "-"+d)
 	}
 	return out
 }
@@ -252,7 +262,11 @@ func c05Matrix(c Case) *Failure {
 	outs := outsMap(runEntryPoints(p, nil, cfg))
 	tag := c.Extra["kinds"]
 	if f := c05Invariants(outs, ptrs, tag); f != nil {
-		if strings.HasPrefix(f.Sig, "C05/errinvalid/") && c.Extra["dtleft"] == "1" {
+		usesDT := false
+		for _, m := range []string{".datetime(", ".date(", ".time(", ".time_tz(", ".timestamp(", ".timestamp_tz("} {
+			usesDT = usesDT || strings.Contains(c.Path, m)
+		}
+		if strings.HasPrefix(f.Sig, "C05/errinvalid/") && (c.Extra["dtleft"] == "1" || usesDT) && strings.Contains(f.Observed, "unrecognized SQL/JSON datetime type") {
 			return &Failure{Sig: "C05/known/datetime-vs-other-errinvalid", Expected: f.Expected, Observed: f.Observed}
 		}
 		return f
@@ -265,8 +279,61 @@ func c05Matrix(c Case) *Failure {
 
 func isDTOperand(o c05Operand) bool { return o.suffix != "" }
 
+// c05RepeatedOptions: WithVars (and the flag options) given twice or three times in one call, on every
+// entry point: no panic, the usual error contract, and none of the maps modified (each is compared with
+// an independent fresh decode).
+func c05RepeatedOptions(r *Run) {
+	mk := func() []exec.Vars {
+		return []exec.Vars{{"a": float64(1), "c": []any{float64(1), "a"}}, {"b": "x", "a": float64(2)}, {}, nil, {"a": nil, "b": map[string]any{"k": float64(1)}}}
+	}
+	texts := []string{`$a`, `$a + 1`, `$b`, `$c[*] ? (@ == $a)`, `$ ? ($a == 1 && $b == "x")`, `$missing`, `$b.k`, `strict $c[$a]`}
+	for _, t := range texts {
+		p, err, pan := parseCached(t)
+		if err != nil || pan != "" {
+			panic("harness: " + t)
+		}
+		n := len(mk())
+		for i := 0; i < n; i++ {
+			for j := 0; j < n; j++ {
+				for k := -1; k < n; k++ {
+					maps := mk()
+					want := make([]string, n)
+					for x := range maps {
+						want[x] = canonTyped(maps[x])
+					}
+					opts := []exec.Option{exec.WithVars(maps[i]), exec.WithSilent(), exec.WithVars(maps[j]), exec.WithTZ(), exec.WithTZ()}
+					if k >= 0 {
+						opts = append(opts, exec.WithVars(maps[k]), exec.WithSilent())
+					}
+					r.evals.Add(1)
+					r.traces.Add(5)
+					c := Case{Rule: "repeated-options", Path: t, Extra: map[string]string{"i": fmt.Sprint(i), "j": fmt.Sprint(j), "k": fmt.Sprint(k)}}
+					func() {
+						defer func() {
+							if rec := recover(); rec != nil {
+								r.Fail(c, &Failure{Sig: "C05/repeated-options/panic", Expected: "no panic", Observed: fmt.Sprint(rec)})
+							}
+						}()
+						ctx := context.Background()
+						_, _ = p.Query(ctx, nil, opts...)
+						_, _ = p.First(ctx, nil, opts...)
+						_, _ = p.Exists(ctx, nil, opts...)
+						_, _ = p.Match(ctx, nil, opts...)
+						_, _ = p.ExistsOrMatch(ctx, nil, opts...)
+					}()
+					for x := range maps {
+						if got := canonTyped(maps[x]); got != want[x] {
+							r.Fail(c, &Failure{Sig: "C05/repeated-options/variables-modified", Expected: want[x], Observed: got})
+						}
+					}
+				}
+			}
+		}
+	}
+}
+
 func runC05(r *Run) {
-	r.Rule("(1) the C06 program/document space, all five entry points, verbose and silent; (2) a type-pair matrix: every comparison, arithmetic and string operator, connective, filter, subscript and exists over every ordered pair of operand kinds {null, bool, int64, float64, json.Number, string, numeric string, array, empty array, object, date, time, timetz, timestamp, timestamptz} plus 25 hostile json.Number spellings (beyond float64 range on both sides, exponents beyond 10^6 and 10^11, beyond int64, exponent forms, -0, 40- and 1000-digit integers, 400-digit fractions) and 40 hostile strings (empty, signs, radix prefixes, exponent stubs, inf/nan spellings, boolean spellings, partial datetimes), and every method / unary operator / accessor over every kind, every like_regex pattern of <= 3 symbols over 20 metacharacters / quoting sequences x 6 flag sets executed on 5 subjects, both modes, verbose and silent, with and without WithTZ; invariants on every execution: no panic; error nil, or wraps ErrExecution, or NULL from Exists/Match/ExistsOrMatch only; never ErrInvalid; document and variables equal an independent fresh decode afterwards; every returned number finite; every returned container pointer-identical to a sub-value of the input or a keyvalue triple; non-trivial = every case (each a distinct program/input)")
+	r.Rule("(1) the C06 program/document space, all five entry points, verbose and silent; (2) a type-pair matrix: every comparison, arithmetic and string operator, connective, filter, subscript and exists over every ordered pair of operand kinds {null, bool, int64, float64, json.Number, string, numeric string, array, empty array, object, date, time, timetz, timestamp, timestamptz} plus 25 hostile json.Number spellings (beyond float64 range on both sides, exponents beyond 10^6 and 10^11, beyond int64, exponent forms, -0, 40- and 1000-digit integers, 400-digit fractions) 19 hostile datetime strings (impossible dates and times, year 10000, offsets beyond 14 h) and 40 hostile strings (empty, signs, radix prefixes, exponent stubs, inf/nan spellings, boolean spellings, partial datetimes), and every method / unary operator / accessor over every kind, every like_regex pattern of <= 3 symbols over 20 metacharacters / quoting sequences x 6 flag sets executed on 5 subjects, both modes, verbose and silent, with and without WithTZ; option lists with WithVars / WithSilent / WithTZ repeated (all triples of 5 maps); invariants on every execution: no panic; error nil, or wraps ErrExecution, or NULL from Exists/Match/ExistsOrMatch only; never ErrInvalid; document and variables equal an independent fresh decode afterwards; every returned number finite; every returned container pointer-identical to a sub-value of the input or a keyvalue triple; non-trivial = every case (each a distinct program/input)")
 	paths := epPaths(r)
 	docs := epDocs()
 	r.Bound("paths", len(paths))
@@ -320,6 +387,8 @@ func runC05(r *Run) {
 			}
 		}
 	})
+	// option lists with repeated options: every variables map handed in is left as it was
+	c05RepeatedOptions(r)
 	r.Extra("type_pairs_exercised", len(covered))
 	r.Extra("type_pairs_expected", n)
 	r.states.Add(int64(len(covered)))
